@@ -3,7 +3,7 @@
    (iterates over a copy), fx = false the loop before that commit (D14); the harness selects the variant that the
    implementation exhibits (fx = true on the current tree).
    Statements only; proofs live in rt/CancelThm.v, the model in rt/CancelM.v.
-   [run fx P s evs = Some (s', labels)] executes a schedule (list of events) of the whole system (workers, server,
+   [run fx f8 P s evs = Some (s', labels)] executes a schedule (list of events) of the whole system (workers, server,
    FIFO channels, clients); every delivery order of CANCEL relative to SUBMIT / RESULT / task steps is such a
    schedule.  Labels record what happened: LRun k t (the body of task t takes a step on worker id k),
    LObs k a mb nx vals (an await/next of task a returned the values vals of mailbox mb), LCancel k a mb n
@@ -15,9 +15,9 @@ From BQ Require Import rt.CancelM rt.CancelThm.
 (* After `cancel fut` (mailbox mb of worker k) executes - explicitly or through task completion - no await/next on that
    worker ever returns a value of that mailbox again, in any continuation of any schedule, and the mailbox stays
    dropped (its id is never reused). *)
-Theorem C12_no_delivery : forall fx P nw evs1 e evs2 s1 l1 s2 l2 s3 l3 wid a mb n,
-  run fx P (init_sys nw) evs1 = Some (s1, l1) -> step fx P s1 e = Some (s2, l2) -> In (LCancel wid a mb n) l2 ->
-  run fx P s2 evs2 = Some (s3, l3) ->
+Theorem C12_no_delivery : forall fx f8 P nw evs1 e evs2 s1 l1 s2 l2 s3 l3 wid a mb n,
+  run fx f8 P (init_sys nw) evs1 = Some (s1, l1) -> step fx f8 P s1 e = Some (s2, l2) -> In (LCancel wid a mb n) l2 ->
+  run fx f8 P s2 evs2 = Some (s3, l3) ->
   exists k, wid = S k /\ e = EStep k
     /\ (forall a' nx vals, ~ In (LObs wid a' mb nx vals) l3)
     /\ dropped_at s3 k mb.
@@ -29,10 +29,10 @@ Theorem C12_result_discarded : forall w x mb slot v, lookup_b mb (w_boxes w) = N
 Proof. exact result_discarded. Qed.
 
 (* Once worker k has handled CANCEL(c), no body of a descendant of c (by breadcrumbs) takes a step on worker k. *)
-Theorem C12_descendants_not_run : forall fx P nw evs1 k evs2 s1 l1 s2 l2 s3 l3 c q,
-  run fx P (init_sys nw) evs1 = Some (s1, l1) ->
-  nth_error (sy_down s1) k = Some (MCancel c :: q) -> step fx P s1 (EDown k) = Some (s2, l2) ->
-  run fx P s2 evs2 = Some (s3, l3) ->
+Theorem C12_descendants_not_run : forall fx f8 P nw evs1 k evs2 s1 l1 s2 l2 s3 l3 c q,
+  run fx f8 P (init_sys nw) evs1 = Some (s1, l1) ->
+  nth_error (sy_down s1) k = Some (MCancel c :: q) -> step fx f8 P s1 (EDown k) = Some (s2, l2) ->
+  run fx f8 P s2 evs2 = Some (s3, l3) ->
   forall t, In (LRun (S k) t) l3 -> desc c t = false.
 Proof. exact descendants_not_run. Qed.
 
@@ -41,9 +41,9 @@ Proof. exact descendants_not_run. Qed.
    after a cancel - the step raises ('Cannot await on a canceled task.' / 'Cannot wait on an already completed
    result.'): nothing is delivered, the mailboxes are untouched, and the ERROR goes upstream unless the task itself
    is known to be cancelled. *)
-Theorem C12_await_fails : forall fx P w0 rt0 w out0 lab0 prog f mb (nx : bool),
+Theorem C12_await_fails : forall fx f8 P w0 rt0 w out0 lab0 prog f mb (nx : bool),
   (w_blocked w0 && match w_ready w0 with [] => true | _ => false end) = false ->
-  select w0 = (Some rt0, w, out0, lab0) ->
+  select f8 w0 = (Some rt0, w, out0, lab0) ->
   rt_desired rt0 = None ->
   nth_error P (t_prog (rt_task rt0)) = Some prog ->
   nth_error prog (rt_pc rt0) = Some (if nx then INext f else IAwait f) ->
@@ -52,7 +52,7 @@ Theorem C12_await_fails : forall fx P w0 rt0 w out0 lab0 prog f mb (nx : bool),
   let kind := if nx then K_NEXT_COMPLETED else K_AWAIT_CANCELLED in
   let sent := negb (dead_on w0 (rt_task rt0)) in
   exists w',
-    wstep fx P w0 = Some (w', out0 ++ (if sent then [MError (t_comp (rt_task rt0)) kind] else []),
+    wstep fx f8 P w0 = Some (w', out0 ++ (if sent then [MError (t_comp (rt_task rt0)) kind] else []),
                        (lab0 ++ [LRun (w_id w0) (rt_task rt0)]) ++ [LErr (w_id w0) (t_addr (rt_task rt0)) kind sent])
     /\ w_boxes w' = w_boxes w0.
 Proof. exact await_fails. Qed.
@@ -65,13 +65,14 @@ Proof. exact await_fails. Qed.
        descendant;
    (3) every `cancel` is executed by the task that owns the mailbox (it created it in this step, or it is in its
        owned_mailboxes): a task can only ever cancel its own children. *)
-Theorem C12_others_unaffected_partial : forall fx P nw evs s0 l0 e s' l,
-  run fx P (init_sys nw) evs = Some (s0, l0) -> step fx P s0 e = Some (s', l) ->
+Theorem C12_others_unaffected_partial : forall fx f8 P nw evs s0 l0 e s' l,
+  run fx f8 P (init_sys nw) evs = Some (s0, l0) -> step fx f8 P s0 e = Some (s', l) ->
   (forall k ws ws' a, nth_error (sy_workers s0) k = Some ws -> nth_error (sy_workers s') k = Some ws' ->
      holds_addr ws a ->
      holds_addr ws' a
      \/ (exists t, In (LDone (S k) t) l /\ t_addr t = a)
-     \/ (exists t, In (LDrop (S k) t) l /\ t_addr t = a /\ dead (sy_issued s') t = true))
+     \/ (exists t, In (LDrop (S k) t) l /\ t_addr t = a /\ dead (sy_issued s') t = true)
+     \/ (exists t, In (LSkip (S k) a (Some t)) l /\ dead (sy_issued s') t = true))
   /\ (forall wid a t, In (LSkip wid a (Some t)) l -> dead (sy_issued s') t = true)
   /\ (forall wid a mb n, In (LCancel wid a mb n) l ->
         exists k ws, wid = S k /\ e = EStep k /\ nth_error (sy_workers s0) k = Some ws
@@ -83,8 +84,8 @@ Proof. exact only_cancelled_work_removed. Qed.
    stands for that erasure of programs, [proj] for dropping the labels of cancelled tasks. *)
 Definition C12_others_unaffected_full : Prop :=
   forall (erase : list addr -> progs -> progs) (proj : list addr -> list label -> list label),
-  forall fx P nw evs s l, run fx P (init_sys nw) evs = Some (s, l) ->
-  exists evs' s' l', run fx (erase (sy_issued s) P) (init_sys nw) evs' = Some (s', l')
+  forall fx f8 P nw evs s l, run fx f8 P (init_sys nw) evs = Some (s, l) ->
+  exists evs' s' l', run fx f8 (erase (sy_issued s) P) (init_sys nw) evs' = Some (s', l')
      /\ sy_issued s' = [] /\ proj (sy_issued s) l = l'.
 
 (* Client cancel (server code as of /repo 50308af).  In every reachable state, when the server handles CANCEL(id) from
@@ -93,8 +94,8 @@ Definition C12_others_unaffected_full : Prop :=
    CANCEL(root address) is appended to the channel of EVERY worker; and in every continuation mailbox and
    mailbox_to_task_dict entry never reappear, so a late RESULT (C12_server_result_discarded) and a late ERROR / LOG
    (C12_server_error_discarded) are dropped instead of reaching the client. *)
-Theorem C12_client_cancel : forall fx P nw evs s0 l0 c id asg s1 l1 ids,
-  run fx P (init_sys nw) evs = Some (s0, l0) -> step fx P s0 (EClient c (CCancel id) asg) = Some (s1, l1) ->
+Theorem C12_client_cancel : forall fx f8 P nw evs s0 l0 c id asg s1 l1 ids,
+  run fx f8 P (init_sys nw) evs = Some (s0, l0) -> step fx f8 P s0 (EClient c (CCancel id) asg) = Some (s1, l1) ->
   lookup_n c (s_clients (sy_server s0)) = Some ids -> In id ids ->
   exists mb, lookup_n id (s_tasks (sy_server s0)) = Some (mb, c)
     /\ lookup_n id (s_tasks (sy_server s1)) = None
@@ -103,23 +104,23 @@ Theorem C12_client_cancel : forall fx P nw evs s0 l0 c id asg s1 l1 ids,
     /\ (forall ids', lookup_n c (s_clients (sy_server s1)) = Some ids' -> ~ In id ids')
     /\ (forall k q, nth_error (sy_down s0) k = Some q -> nth_error (sy_down s1) k = Some (q ++ [MCancel (0, mb, 0)]))
     /\ sy_issued s1 = sy_issued s0 ++ [(0, mb, 0)]
-    /\ (forall evs2 s2 l2, run fx P s1 evs2 = Some (s2, l2) ->
+    /\ (forall evs2 s2 l2, run fx f8 P s1 evs2 = Some (s2, l2) ->
           lookup_n mb (s_boxes (sy_server s2)) = None /\ lookup_n mb (s_m2t (sy_server s2)) = None).
 Proof. exact client_cancel. Qed.
 
 (* CANCEL for anything else (finished and delivered, cancelled before, unknown, another client's task) is only
    acknowledged: no table, channel or worker changes, nothing is issued ... *)
-Theorem C12_client_cancel_other : forall fx P nw evs s0 l0 c id asg s1 l1 ids,
-  run fx P (init_sys nw) evs = Some (s0, l0) -> step fx P s0 (EClient c (CCancel id) asg) = Some (s1, l1) ->
+Theorem C12_client_cancel_other : forall fx f8 P nw evs s0 l0 c id asg s1 l1 ids,
+  run fx f8 P (init_sys nw) evs = Some (s0, l0) -> step fx f8 P s0 (EClient c (CCancel id) asg) = Some (s1, l1) ->
   lookup_n c (s_clients (sy_server s0)) = Some ids -> ~ In id ids ->
   sy_server s1 = sy_server s0 /\ sy_down s1 = sy_down s0 /\ sy_up s1 = sy_up s0 /\ sy_workers s1 = sy_workers s0
   /\ sy_issued s1 = sy_issued s0.
 Proof. exact client_cancel_other. Qed.
 
 (* ... and the handler never raises for a connected client (D4 is gone). *)
-Theorem C12_client_cancel_total : forall fx P nw evs s0 l0 c id asg ids,
-  run fx P (init_sys nw) evs = Some (s0, l0) -> lookup_n c (s_clients (sy_server s0)) = Some ids ->
-  exists s1 l1, step fx P s0 (EClient c (CCancel id) asg) = Some (s1, l1).
+Theorem C12_client_cancel_total : forall fx f8 P nw evs s0 l0 c id asg ids,
+  run fx f8 P (init_sys nw) evs = Some (s0, l0) -> lookup_n c (s_clients (sy_server s0)) = Some ids ->
+  exists s1 l1, step fx f8 P s0 (EClient c (CCancel id) asg) = Some (s1, l1).
 Proof. exact client_cancel_total. Qed.
 
 Theorem C12_server_error_discarded : forall nw comp kind asg s, lookup_n comp (s_m2t s) = None ->
@@ -133,14 +134,14 @@ Proof. exact sup_discards. Qed.
 (* Client disconnect.  Afterwards the server holds nothing of that client: no `clients` entry, no `tasks` entry naming
    the connection, no `mailbox_to_task_dict` entry and no mailbox of any of its tasks (now and in every continuation);
    the only CANCELs it issues are for that client's own root tasks, and each of them is in the channel of every worker. *)
-Theorem C12_client_disconnect : forall fx P nw evs s0 l0 c order asg s1 l1,
-  run fx P (init_sys nw) evs = Some (s0, l0) -> step fx P s0 (EClient c (CDisconnect order) asg) = Some (s1, l1) ->
+Theorem C12_client_disconnect : forall fx f8 P nw evs s0 l0 c order asg s1 l1,
+  run fx f8 P (init_sys nw) evs = Some (s0, l0) -> step fx f8 P s0 (EClient c (CDisconnect order) asg) = Some (s1, l1) ->
   lookup_n c (s_clients (sy_server s1)) = None
   /\ (forall id mb, ~ In (id, (mb, c)) (s_tasks (sy_server s1)))
   /\ (forall id mb, lookup_n id (s_tasks (sy_server s0)) = Some (mb, c) ->
         lookup_n id (s_tasks (sy_server s1)) = None /\ lookup_n mb (s_m2t (sy_server s1)) = None
         /\ lookup_n mb (s_boxes (sy_server s1)) = None
-        /\ forall evs2 s2 l2, run fx P s1 evs2 = Some (s2, l2) ->
+        /\ forall evs2 s2 l2, run fx f8 P s1 evs2 = Some (s2, l2) ->
              lookup_n mb (s_boxes (sy_server s2)) = None /\ lookup_n mb (s_m2t (sy_server s2)) = None)
   /\ (forall a, In a (sy_issued s1) -> In a (sy_issued s0)
         \/ exists id mb, lookup_n id (s_tasks (sy_server s0)) = Some (mb, c) /\ a = (0, mb, 0))
@@ -150,7 +151,7 @@ Proof. exact client_disconnect. Qed.
 (* D8.  "At quiescence no worker holds anything of cancelled work" is false for the code as it is: a concrete
    10-event run of one worker + server + one client ends quiescent with a cancelled task in Worker._tasks. *)
 Theorem C12_quiescent_clean_refuted :
-  exists s labs, run false d8_progs (init_sys 1) d8_run = Some (s, labs)
+  exists s labs, run false false d8_progs (init_sys 1) d8_run = Some (s, labs)
     /\ quiescent s = true /\ clean s = false
     /\ forallb no_orphans (sy_workers s) = true.
 Proof. exact d8_witness. Qed.
@@ -161,7 +162,7 @@ Proof. exact d8_witness. Qed.
    iterating over).  The second mailbox outlives its owner for ever, its child is run although nobody can receive its
    result, and no CANCEL is ever issued for it. *)
 Theorem C12_completion_cancels_children_refuted :
-  exists s labs, run false d14_progs (init_sys 1) d14_run = Some (s, labs)
+  exists s labs, run false false d14_progs (init_sys 1) d14_run = Some (s, labs)
     /\ quiescent s = true
     /\ In (LLeft 1 (0, 0, 0) [1]) labs
     /\ In (LRun 1 (mkTask (1, 1, 0) [(0, 0, 0)] 0 1)) labs
@@ -178,7 +179,7 @@ Proof. exact completion_fixed_all. Qed.
 
 (* the D14 scenario under the current loop: both children cancelled, neither is run, nothing is left *)
 Example C12_completion_fixed_example :
-  exists s labs, run true d14_progs (init_sys 1)
+  exists s labs, run true true d14_progs (init_sys 1)
       [EClient 0 CConnect []; EClient 0 (CSubmit 0 0) [(0, [0])]; EDown 0; EStep 0;
        EUp 0 [(0, [0])]; EUp 0 [(0, [0])]; EUp 0 []; EUp 0 []; EUp 0 [];
        EDown 0; EDown 0; EDown 0; EDown 0; EStep 0; EUp 0 []] = Some (s, labs)
@@ -189,18 +190,18 @@ Proof. eexists. eexists. split; [vm_compute; reflexivity|]. vm_compute. auto 20.
 (* Quiescent cleanliness holds on the runs without D8's trigger: if no SUBMIT(_BATCH) is handled by a worker after the
    CANCEL of one of its tasks' ancestors ([overtaken] is false for every event of the run), then whenever the system
    is quiescent no worker holds a started or delayed task of cancelled work, nor the mailbox of a cancelled future. *)
-Theorem C12_quiescent_clean_partial : forall fx P nw evs s l,
-  run fx P (init_sys nw) evs = Some (s, l) -> no_overtake fx P (init_sys nw) evs = true ->
+Theorem C12_quiescent_clean_partial : forall fx f8 P nw evs s l,
+  run fx f8 P (init_sys nw) evs = Some (s, l) -> no_overtake fx f8 P (init_sys nw) evs = true ->
   quiescent s = true -> clean s = true.
 Proof. exact quiescent_clean_partial. Qed.
 
 Definition C12_quiescent_clean_full : Prop :=
-  forall fx P nw evs s l, run fx P (init_sys nw) evs = Some (s, l) -> quiescent s = true ->
+  forall fx f8 P nw evs s l, run fx f8 P (init_sys nw) evs = Some (s, l) -> quiescent s = true ->
     clean s = true /\ forallb no_orphans (sy_workers s) = true.
 
 (* non-vacuity: a run in which a cancel executes, a result is later discarded and CANCEL is delivered *)
 Example C12_nonvacuous :
-  exists s labs, run false [[ISubmit 1; ICancel 0]; []] (init_sys 2)
+  exists s labs, run true true [[ISubmit 1; ICancel 0]; []] (init_sys 2)
       [EClient 0 CConnect []; EClient 0 (CSubmit 0 0) [(0, [0])]; EDown 0; EStep 0;
        EUp 0 [(1, [0])]; EDown 1; EStep 1; EUp 0 []; EUp 0 []; EDown 1; EUp 1 []; EDown 0; EDown 0] = Some (s, labs)
     /\ In (LCancel 1 (0, 0, 0) 0 1) labs /\ In (LDiscard 1 (1, 0, 0) 1) labs.
@@ -212,13 +213,13 @@ Example C12_partial_nonvacuous :
        EUp 0 [(1, [0])]; EDown 1; EStep 1; EUp 0 []; EUp 0 []; EDown 1; EUp 1 []; EDown 0; EDown 0;
        EStep 0; EStep 1; EUp 0 []; EUp 1 []] in
   let P := [[ISubmit 1; ICancel 0]; []] in
-  no_overtake false P (init_sys 2) evs = true
-  /\ exists s labs, run false P (init_sys 2) evs = Some (s, labs) /\ quiescent s = true /\ sy_issued s = [(1, 0, 0)].
+  no_overtake true true P (init_sys 2) evs = true
+  /\ exists s labs, run true true P (init_sys 2) evs = Some (s, labs) /\ quiescent s = true /\ sy_issued s = [(1, 0, 0)].
 Proof. split. vm_compute; reflexivity. eexists. eexists. split; [vm_compute; reflexivity|]. vm_compute. auto. Qed.
 
 (* non-vacuity of the client theorems: a cancel and a disconnect that the handlers accept *)
 Example C12_client_nonvacuous :
-  exists s labs, run false [[ISubmit 1; IAwait 0]; []] (init_sys 2)
+  exists s labs, run true true [[ISubmit 1; IAwait 0]; []] (init_sys 2)
       [EClient 0 CConnect []; EClient 1 CConnect []; EClient 0 (CSubmit 0 0) [(0, [0])]; EClient 1 (CSubmit 1 0) [(1, [0])];
        EDown 0; EStep 0; EClient 0 (CCancel 0) []; EClient 1 (CDisconnect [1]) []] = Some (s, labs)
     /\ sy_issued s = [(0, 0, 0); (0, 1, 0)] /\ s_tasks (sy_server s) = [] /\ s_m2t (sy_server s) = []
